@@ -264,3 +264,15 @@ Theorem c11_queued_message_eventually_received : forall react,
                        c_rcvd (g_ci (s_g (f_st _ _ _ r j))) = c_rcvd (g_ci (s_g (f_st _ _ _ r i))) ++ [msg0]).
 Proof. exact (fun react H => queued_message_eventually_received ABS NOLIM react eq_refl H). Qed.
 Print Assumptions c11_queued_message_eventually_received.
+
+(* ---- the WaitCondition counting contract the wait-condition mode rests on: a wait entered, or pending, while the
+   condition's notification count is positive returns at once and zeroes the count -- no receive stays parked while its
+   count is positive (so a stale notification, left behind by a receive that found its Message without waiting, can only
+   cause a spurious wake-up, never hide a later Notify()).  The real WaitAux / WaitUntilAux are checked against it by the
+   controlled runs (untimed) and by the real-clock timed scenarios of the check (f=3). ---- *)
+Theorem c11_no_receive_parks_while_notified : forall react s t x w,
+  g_sockets (s_g s) = false -> l_pc (s_l s t) = PRecvPark x w -> (0 < c_wc (ch (s_g s) x))%N ->
+  exists s', sys_step false ABS NOLIM react s (LStep (U t) CRun) = Some (s', [EWoken]) /\
+             c_wc (ch (s_g s') x) = 0%N /\ l_pc (s_l s' t) = PRecvAbsorb x w.
+Proof. exact (no_receive_parks_while_notified false ABS NOLIM). Qed.
+Print Assumptions c11_no_receive_parks_while_notified.
